@@ -55,7 +55,8 @@ public:
     {
         std::unique_lock<std::mutex> lock(mutex_);
         size_t res = ++value_;
-        cv_.notify_one();
+        // waiters may wait for different amounts: wake all, each rechecks
+        cv_.notify_all();
         return res;
     }
 
